@@ -182,32 +182,23 @@ func main() {
 		level = 1
 	}
 	bases := gen.Bases(level)
-	var cases []Case
-	for bi, b := range bases {
-		cases = append(cases, Case{Base: b.Name, Doc: b.Tree})
-		for _, m := range gen.Defects(b.Tree) {
-			if strings.HasPrefix(m.Class, "annotations-too-large") || strings.HasPrefix(m.Class, "annotations-at-size-limit") {
-				if bi%8 != 0 {
-					continue
-				}
-			}
-			doc := gen.Apply(b.Tree, m)
-			gen.RaiseVersion(doc, []gen.Mutation{m})
-			cases = append(cases, Case{Base: b.Name, Mutations: []gen.Mutation{m}, Doc: doc})
-		}
-	}
-	if only := os.Getenv("VERIF_ONLY"); only != "" { // debugging aid: restrict to one defect class
-		var f []Case
-		for _, c := range cases {
-			if len(c.Mutations) > 0 && strings.Contains(c.Mutations[0].Class, only) {
-				f = append(f, c)
-			}
-		}
-		cases = f
+	only := os.Getenv("VERIF_ONLY") // debugging aid: restrict to one defect class
+	if only != "" {
 		r.Cap("VERIF_ONLY filter")
 	}
-	singles := len(cases)
-	pairs := 0
+	sizeClass := func(c string) bool {
+		return strings.HasPrefix(c, "annotations-too-large") || strings.HasPrefix(c, "annotations-at-size")
+	}
+	// jobs are generated lazily inside the workers (the thorough space does not fit in memory as a list)
+	type job struct {
+		base  gen.Base
+		bi    int
+		pairI int // -1: the base and its single defects; >=0: row pairI of the defect-pair matrix of a core base
+	}
+	var jobs []job
+	for bi, b := range bases {
+		jobs = append(jobs, job{b, bi, -1})
+	}
 	if r.Thorough() {
 		// all pairs of defects on a core of small bases
 		core := []gen.Base{
@@ -216,48 +207,72 @@ func main() {
 			gen.MakeBase(false, "all", []string{"hook-prestart", "rdt", "gids"}, false, "v/c", false),
 		}
 		for _, b := range core {
-			ds := gen.Defects(b.Tree)
-			for i := 0; i < len(ds); i++ {
-				if strings.HasPrefix(ds[i].Class, "annotations-") && strings.Contains(ds[i].Class, "size") || strings.HasPrefix(ds[i].Class, "annotations-too-large") {
-					continue
-				}
-				for j := i + 1; j < len(ds); j++ {
-					if strings.HasPrefix(ds[j].Class, "annotations-too-large") || strings.HasPrefix(ds[j].Class, "annotations-at-size") {
-						continue
-					}
-					if ds[i].Where == ds[j].Where || strings.HasPrefix(ds[j].Where, ds[i].Where) || strings.HasPrefix(ds[i].Where, ds[j].Where) {
-						continue // second mutation would overwrite the first
-					}
-					pm := []gen.Mutation{ds[i], ds[j]}
-					pm[0].Expect, pm[1].Expect = "", ""
-					doc := gen.Apply(b.Tree, pm...)
-					gen.RaiseVersion(doc, pm)
-					cases = append(cases, Case{Base: b.Name, Mutations: pm, Doc: doc})
-					pairs++
-				}
+			for i := range gen.Defects(b.Tree) {
+				jobs = append(jobs, job{b, 0, i})
 			}
 		}
 	}
-	r.Rule = fmt.Sprintf("%d well-formed base documents (combinations of optional members, 1-3 devices, every edit kind, exact-minimum and current versions, six kind spellings) "+
-		"+ every single defect of the statement's kinds at every position (spec level, first/middle/last device, first/last list element): %d documents; %d defect pairs on a 3-base core; "+
-		"each rendered as JSON and YAML and run through ParseSpec, ReadSpec, manual-cache Refresh+GetErrors+ListDevices, and WriteSpec when representable in the Go types. "+
-		"Oracle: independent validator over the document tree (refmodel.SpecTree). Distinct by construction; non-trivial = the model gives a definite verdict (valid/invalid)", len(bases), singles, pairs)
-	r.Assumptions = []string{"documents whose verdict the statement leaves open (null for an optional member, v-prefixed version, empty closID) are only checked for absence of panics",
-		"kinds on which SPEC.md prose and the statement's grammar could differ are not generated", "member-name case variants and duplicate keys are not generated"}
+	var singles, pairs atomic.Int64
 	nw := 16
 	workers := make(chan *worker, nw)
 	for i := 0; i < nw; i++ {
 		workers <- newWorker(root, i)
 	}
-	r.ParallelL(int64(len(cases)), func(i int64, l *hx.Local) {
+	r.ParallelL(int64(len(jobs)), func(i int64, l *hx.Local) {
 		w := <-workers
-		c := cases[i]
-		res := w.eval(c)
-		workers <- w
-		l.Record(res, func() any {
-			return map[string]any{"base": c.Base, "mutations": c.Mutations, "outcome": res.Outcome}
-		})
+		defer func() { workers <- w }()
+		jb := jobs[i]
+		run := func(c Case) {
+			res := w.eval(c)
+			l.Record(res, func() any {
+				return map[string]any{"base": c.Base, "mutations": c.Mutations, "outcome": res.Outcome}
+			})
+		}
+		ds := gen.Defects(jb.base.Tree)
+		if jb.pairI < 0 {
+			if only == "" {
+				run(Case{Base: jb.base.Name, Doc: jb.base.Tree})
+			}
+			for _, m := range ds {
+				if sizeClass(m.Class) && jb.bi%8 != 0 {
+					continue
+				}
+				if only != "" && !strings.Contains(m.Class, only) {
+					continue
+				}
+				doc := gen.Apply(jb.base.Tree, m)
+				gen.RaiseVersion(doc, []gen.Mutation{m})
+				singles.Add(1)
+				run(Case{Base: jb.base.Name, Mutations: []gen.Mutation{m}, Doc: doc})
+			}
+			return
+		}
+		a := ds[jb.pairI]
+		if sizeClass(a.Class) || only != "" {
+			return
+		}
+		for j := jb.pairI + 1; j < len(ds); j++ {
+			b := ds[j]
+			if sizeClass(b.Class) {
+				continue
+			}
+			if a.Where == b.Where || strings.HasPrefix(b.Where, a.Where) || strings.HasPrefix(a.Where, b.Where) {
+				continue // the second mutation would overwrite the first
+			}
+			pm := []gen.Mutation{a, b}
+			pm[0].Expect, pm[1].Expect = "", ""
+			doc := gen.Apply(jb.base.Tree, pm...)
+			gen.RaiseVersion(doc, pm)
+			pairs.Add(1)
+			run(Case{Base: jb.base.Name, Mutations: pm, Doc: doc})
+		}
 	})
+	r.Rule = fmt.Sprintf("%d well-formed base documents (combinations of optional members, 1-3 devices, every edit kind, exact-minimum and current versions, six kind spellings) "+
+		"+ every single defect of the statement's kinds at every position (spec level, first/middle/last device, first/last list element): %d documents; %d defect pairs on a 3-base core; "+
+		"each rendered as JSON and YAML and run through ParseSpec, ReadSpec, manual-cache Refresh+GetErrors+ListDevices, and WriteSpec when representable in the Go types. "+
+		"Oracle: independent validator over the document tree (refmodel.SpecTree). Distinct by construction; non-trivial = the model gives a definite verdict (valid/invalid)", len(bases), singles.Load(), pairs.Load())
+	r.Assumptions = []string{"documents whose verdict the statement leaves open (null for an optional member, v-prefixed version, empty closID) are only checked for absence of panics",
+		"kinds on which SPEC.md prose and the statement's grammar could differ are not generated", "member-name case variants and duplicate keys are not generated"}
 	close(selfcheck)
 	n := 0
 	for s := range selfcheck {
@@ -272,8 +287,8 @@ func main() {
 		os.Exit(2)
 	}
 	r.Extra["bases"] = len(bases)
-	r.Extra["single_defect_documents"] = singles - len(bases)
-	r.Extra["defect_pair_documents"] = pairs
+	r.Extra["single_defect_documents"] = singles.Load()
+	r.Extra["defect_pair_documents"] = pairs.Load()
 	r.Extra["encodings"] = 2
 	r.Extra["yaml_renderings_skipped_as_unfaithful"] = unfaithful.Load()
 	os.RemoveAll(root)
